@@ -116,11 +116,24 @@ class GridBase:
         junction = self.junctions[index]
 
         if len(junction.links) > 0:
-            for indexed_link in junction.links:
-                indexed_link.link.leader = position
-                indexed_link.link.update()
+            # a follower can lead other points: move those too (but no point twice)
+            moved = {index}
+            leaders = [(index, position)]
 
-                self.points[indexed_link.follower_index] = indexed_link.link.follower
+            while leaders:
+                leader_index, leader_position = leaders.pop(0)
+
+                for indexed_link in self.junctions[leader_index].links:
+                    if indexed_link.follower_index in moved:
+                        continue
+
+                    indexed_link.link.leader = leader_position
+                    indexed_link.link.update()
+
+                    self.points[indexed_link.follower_index] = indexed_link.link.follower
+
+                    moved.add(indexed_link.follower_index)
+                    leaders.append((indexed_link.follower_index, indexed_link.link.follower))
 
             return self.quality
 
